@@ -82,20 +82,22 @@ func bj(b *blockchain.Block) BlockJ {
 }
 
 type VEnvJ struct {
-	GenesisTS     uint32   `json:"genesis_ts"`
-	BlockTime     uint32   `json:"block_time"`
-	Now           uint32   `json:"now"`
-	MaxPayload    uint32   `json:"max_payload"`
-	GenLookupOK   bool     `json:"gen_lookup_ok"`
-	Generators    []string `json:"generators"`
-	NodeMHP       uint32   `json:"node_mhp"`
-	Contradicting bool     `json:"contradicting"`
-	MhPrecommit   uint32   `json:"mh_precommit"`
-	MhCert        uint32   `json:"mh_cert"`
-	NextParams    *uint32  `json:"next_params"`   // NextHeightBFTParameters(maxHeightCertified+1), nil if none
-	AggLookupOK   bool     `json:"agg_lookup_ok"` // header and BFT parameters exist at the commit's height
-	AggBlsOK      bool     `json:"agg_bls_ok"`    // weighted BLS aggregate verifies (computed with pkg/crypto directly)
-	SigOK         bool     `json:"sig_ok"`
+	GenesisTS     uint32      `json:"genesis_ts"`
+	BlockTime     uint32      `json:"block_time"`
+	Now           uint32      `json:"now"`
+	MaxPayload    uint32      `json:"max_payload"`
+	GenLookupOK   bool        `json:"gen_lookup_ok"`
+	Generators    []string    `json:"generators"`
+	NodeMHP       uint32      `json:"node_mhp"`
+	Contradicting bool        `json:"contradicting"` // the module's own verdict (diagnostic only: the oracle recomputes it from Window)
+	Window        [][4]string `json:"window"`        // BFT window, newest first: height, generator address, maxHeightGenerated, maxHeightPrevoted
+	MhPrecommit   uint32      `json:"mh_precommit"`
+	MhCert        uint32      `json:"mh_cert"`
+	NextParams    *uint32     `json:"next_params"`   // NextHeightBFTParameters(maxHeightCertified+1), nil if none
+	AggLookupOK   bool        `json:"agg_lookup_ok"` // header and BFT parameters exist at the commit's height
+	AggBlsOK      bool        `json:"agg_bls_ok"`    // weighted BLS aggregate verifies (computed with pkg/crypto directly)
+	SigOK         bool        `json:"sig_ok"`
+	Batch         int         `json:"batch"` // liskbft batch size of this world (vote window = 3*batch); informational, used by C01
 }
 type XEnvJ struct {
 	InitOK        bool      `json:"init_ok"`
@@ -287,6 +289,17 @@ func envs(n *exh.Node, b *blockchain.Block, s *exh.Script) (VEnvJ, XEnvJ, string
 		cert.Signature = agg.CertificateSignature
 		ve.AggBlsOK = cert.VerifyAggregateCertificateSignature(keys, weights, params.CertificateThreshold(), n.Opt.ChainID)
 	}()
+	ve.Window = [][4]string{}
+	func() {
+		defer func() { recover() }()
+		infos, _, err := liskbft.VerifC02DumpVotes(n.Exec.VerifC03ConsensusStore())
+		if err != nil {
+			return
+		}
+		for _, in := range infos {
+			ve.Window = append(ve.Window, [4]string{fmt.Sprint(in.Height), hex.EncodeToString(in.Generator), fmt.Sprint(in.MaxHeightGenerated), fmt.Sprint(in.MaxHeightPrevoted)})
+		}
+	}()
 	func() {
 		defer func() {
 			if recover() != nil {
@@ -296,6 +309,7 @@ func envs(n *exh.Node, b *blockchain.Block, s *exh.Script) (VEnvJ, XEnvJ, string
 		c, err := n.Exec.VerifC03LiskBFT().API().IsHeaderContradictingChain(n.Exec.VerifC03ConsensusStore(), h.Readonly())
 		ve.Contradicting = c && err == nil
 	}()
+	ve.Batch = n.Opt.BatchSize
 	if len(gens) > 0 {
 		slot := n.Slot(h.Timestamp)
 		if v := n.ValidatorByAddr(gens[slot%len(gens)]); v != nil {
@@ -964,6 +978,11 @@ func (w *world) grow(k int) bool {
 				}
 			}()
 		}
+		if w.r.Intn(6) == 0 {
+			// a header that casts no votes: maxHeightGenerated >= height (LIP-0014)
+			hgt := w.n.Tip().Header.Height + 1
+			bo.MHG = &hgt
+		}
 		w.n.ABI.S = s
 		b := w.n.NextValid(bo)
 		if !w.submit("none (valid successor, history)", b, s, true, w.r.Bool(), true) {
@@ -1054,7 +1073,8 @@ func (w *world) changeValidators() bool {
 
 // tieBreak drives Executer.process into the tie-break branch with an invalid competing block (bad signature): the tip is
 // deleted, the new block rejected, the old tip re-applied.
-func (w *world) tieBreak(validNew bool) {
+// mode: 0 valid competitor, 1 invalid signature, 2 execution failure (ABI AfterTransactionsExecute), 3 validatorsHash mismatch
+func (w *world) tieBreak(mode int) {
 	n := w.n
 	nowSlot := n.Slot(uint32(time.Now().Unix()))
 	tipSlot := n.Slot(n.Tip().Header.Timestamp)
@@ -1088,10 +1108,19 @@ func (w *world) tieBreak(validNew bool) {
 		return
 	}
 	alt := "tie-break: valid competing block"
-	if !validNew {
+	switch mode {
+	case 1:
 		T2.Header.Signature = flip(T2.Header.Signature)
 		T2.Header.Init()
 		alt = "tie-break: competing block with invalid signature"
+	case 2:
+		s2 = cloneScript(s2)
+		s2.FailAfterTxs = true
+		alt = "tie-break: competing block whose execution fails"
+	case 3:
+		T2.Header.ValidatorsHash = flip(T2.Header.ValidatorsHash)
+		n.Sign(T2.Header, n.ValidatorByAddr(T2.Header.GeneratorAddress))
+		alt = "tie-break: competing block with a wrong validatorsHash"
 	}
 	c := Case{K: "tb", World: w.id, Alt: alt, Path: "process"}
 	ve2, xe2, txr, asr := envs(n, T2, s2)
@@ -1226,6 +1255,22 @@ func main() {
 				}
 			}
 			bo, s := w.randomBuild(p%2 == 1 && !w.noChange && rotated == nil)
+			if rotated == nil && wi%3 == 0 && p == 0 {
+				// the newest header of the successor's generator is a no-vote header (maxHeightGenerated = its height): the
+				// alterations of maxHeightGenerated below then contradict exactly that entry of the window
+				gens := w.n.GeneratorAddrs()
+				nv := w.n.ValidatorByAddr(gens[r.Intn(len(gens))])
+				b0, s0 := w.randomBuild(false)
+				b0.By = nv
+				w.n.ABI.S = s0
+				hgt := w.n.Tip().Header.Height + 1
+				b0.MHG = &hgt
+				if !w.submit("none (valid successor casting no votes, history)", w.n.NextValid(b0), s0, true, false, true) {
+					ok = false
+					break
+				}
+				bo.By = nv
+			}
 			if rotated != nil {
 				bo.By = rotated // the successor under test is in the slot of the validator whose key was rotated
 			}
@@ -1262,7 +1307,7 @@ func main() {
 		if !ok {
 			continue
 		}
-		w.tieBreak(wi%3 == 2)
+		w.tieBreak(wi % 4)
 	}
 	// dump one JSON line for json sanity
 	_ = json.Marshal
